@@ -79,8 +79,12 @@ class Lock:
 
 def build_lean(targets):
     with Lock("lake"):
+        # translator: tables of the Go source → Lean definitions, regenerated on every run
+        rc0, out0 = run([sys.executable, os.path.join(ROOT, "tools", "gen_lean_tables.py")], cwd=ROOT)
+        if rc0 != 0:
+            return rc0, "gen_lean_tables.py (translator of /repo tables into Lean) failed:\n" + out0
         rc, out = run(["lake", "build"] + targets, cwd=LEAN)
-    return rc, out
+    return rc, out0 + out
 
 
 def build_harness(tags="verif", outname="corr", race=False):
